@@ -32,3 +32,13 @@ Check c09_deliver_exact : forall l h call a,
              as_inbox a = if as_handle a0 =? h then as_inbox a0 ++ [call] else as_inbox a0.
 Check c09_value_untouched : forall st p id v, st_db (fst (actuate st p id v)) = st_db st.
 Check c09_batch_value_untouched : forall st p cs, st_db (fst (batch_actuate st p cs)) = st_db st.
+From KD Require Model.Api.
+Check c09_stream_claim_is_core : forall st p l st' h,
+  Api.v2_provide st p l = (st', inl h) ->
+  exists ids, Api.resolve_paths (st_db st) (Api.sig_paths l) = Some ids /\
+              provide_actuation st p (Api.sig_ids l ++ ids) = (st', inl h).
+Check c09_stream_claim_refused_no_effect : forall st p l st' c,
+  Api.v2_provide st p l = (st', inr c) -> st' = st.
+Check c09_stream_publish_is_core : forall st p l,
+  fst (Api.v2_stream_publish st p l) = fst (update_entries st p (Api.stream_updates l)) /\
+  map fst (snd (Api.v2_stream_publish st p l)) = map fst (snd (update_entries st p (Api.stream_updates l))).
